@@ -461,7 +461,7 @@ func init() {
 	vc.Register(&vc.Check{
 		ID:    "C18",
 		Level: "exploration",
-		Rule: "cases (direct): every sequence (quick length<=5, thorough <=6) over the alphabet {coalescable user events x,y @ Lamport time 1,2,3; non-coalescable user events x@2, y@3; a member event; a query} x every subset of positions after which Flush is called, plus one final Flush, on the real userEventCoalescer; a second alphabet with boundary values (names \"\" and x, Lamport times 0, 1, 2^64-1, length<=4); the same letter twice = tie with distinct payloads; Handle's verdict is checked for every event, each flush output is compared per name in order. " +
+		Rule: "cases (direct): every sequence (quick length<=5, thorough <=6) over the alphabet {coalescable user events x,y @ Lamport time 1,2,3; non-coalescable user events x@2, y@3; a member event; a query} x every subset of positions after which Flush is called, plus one final Flush, on the real userEventCoalescer; a second alphabet with boundary values (names \"\" and x, Lamport times 0, 1, 2^64-1, length<=4); the same letter twice = tie with distinct payloads; direct/identical-payloads: every sequence over {x@1, x@2, y@1, y@2 coalescable, x@2 non-coalescable} x every flush placement x every event carrying the same payload (nil, empty, \"p\"), so that tied events are equal as values, judged by count per name; Handle's verdict is checked for every event, each flush output is compared per name in order. " +
 			"cases (loop): every script of length<=5 (thorough 6) over {x@1, x@2, y@2, non-coalescable x@2, member event, query, advance 1s, advance 2s} followed by shutdown, through the real coalesceLoop under the controlled scheduler with virtual time (coalesce period 4s, quiescent period 3s). " +
 			"All cases are distinct by construction; non-trivial (direct) = within one quantum some name received >=2 coalescable events (a newest-selection or a tie); non-trivial (loop) = at least one timer-driven flush or a pass-through event during an open quantum. slow-application/user-events (shared with C16): an application that does not read its channel for a while, under the controlled scheduler",
 		Assumptions: []string{
@@ -491,6 +491,18 @@ func c18run(ctx *vc.Ctx) {
 		scn := ctx.Scn("replay/"+r.Layer, "cases")
 		var sig, msg string
 		var m *c18model
+		if strings.HasPrefix(r.Layer, "same/") {
+			mode := 0
+			fmt.Sscanf(r.Layer, "same/%d", &mode)
+			tie := false
+			tie, sig, msg = c18sameDirect(ops, mode, make(chan serf.Event, 64))
+			fmt.Printf("replay layer=%s ops=%q tie=%v sig=%q\n", r.Layer, r.Ops, tie, sig)
+			if sig != "" {
+				ctx.Violation(scn.Name, sig, "case ["+r.Ops+"]: "+msg, r)
+			}
+			scn.Case(fmt.Sprintf("tie=%v", tie), true)
+			return
+		}
 		if r.Layer == "loop" {
 			m, _, sig, msg = c18loop(ops)
 		} else {
@@ -524,6 +536,125 @@ func c18run(ctx *vc.Ctx) {
 	c18directScn(ctx, &idx, fmt.Sprintf("direct/main/len<=%d", n), main, n)
 	c18directScn(ctx, &idx, "direct/boundary/len<=4", boundary, 4)
 	c18loopScn(ctx, &idx, fmt.Sprintf("loop/len<=%d", ln), loop, ln)
+	same := []c18op{u("x", 1, true), u("x", 2, true), u("y", 1, true), u("y", 2, true), u("x", 2, false)}
+	c18sameScn(ctx, &idx, fmt.Sprintf("direct/identical-payloads/len<=%d", n), same, n)
+}
+
+// c18samePayloads: what every event of a case carries in the identical-payload scenario.
+var c18samePayloads = [][]byte{nil, {}, []byte("p")}
+
+// c18sameDirect runs one case in which all user events carry the same payload
+// (mode indexes c18samePayloads), so events that tie on name and Lamport time are
+// equal as values. The reference is a count: per name, a flush emits as many events
+// as were received with the highest Lamport time of the quantum, each with that
+// time, that name and the payload.
+func c18sameDirect(ops []c18op, mode int, out chan serf.Event) (tie bool, sig, msg string) {
+	c := serf.VNewUserCoalescer()
+	type pend struct {
+		lt uint64
+		n  int
+	}
+	want := map[string]*pend{}
+	flushes := 0
+	for _, o := range ops {
+		if o.t == 'F' {
+			flushes++
+			c.Flush(out)
+			got := map[string]int{}
+			for _, e := range c17drain(out) {
+				u, ok := e.(serf.UserEvent)
+				if !ok {
+					return tie, "flush-emitted-other-kind", fmt.Sprintf("flush %d emitted %T %v", flushes, e, e)
+				}
+				w := want[u.Name]
+				if w == nil {
+					return tie, "emitted-for-name-without-new-event", fmt.Sprintf("flush %d emitted %+v, nothing is pending for that name", flushes, u)
+				}
+				if uint64(u.LTime) != w.lt || !u.Coalesce || !bytes.Equal(u.Payload, c18samePayloads[mode]) || (u.Payload == nil) != (c18samePayloads[mode] == nil) {
+					return tie, "flush-emitted-altered-event", fmt.Sprintf("flush %d emitted %+v; the newest events of %q have Lamport time %d and payload %q", flushes, u, u.Name, w.lt, c18samePayloads[mode])
+				}
+				got[u.Name]++
+			}
+			for name, w := range want {
+				if got[name] != w.n {
+					cls := "newest-event-dropped"
+					if got[name] > w.n {
+						cls = "event-emitted-twice"
+					}
+					return tie, cls, fmt.Sprintf("flush %d, name %q: %d events emitted, but %d events with the highest Lamport time %d (all with payload %q) were received since the last flush", flushes, name, got[name], w.n, w.lt, c18samePayloads[mode])
+				}
+			}
+			want = map[string]*pend{}
+			continue
+		}
+		e := serf.UserEvent{LTime: serf.LamportTime(o.lt), Name: o.name, Payload: c18samePayloads[mode], Coalesce: o.co}
+		h := c.Handle(e)
+		if h != o.co {
+			s, g := c18handleSig(o, h)
+			return tie, s, g
+		}
+		if !h {
+			continue
+		}
+		c.Coalesce(e)
+		if len(out) != 0 {
+			return tie, "emitted-outside-flush", fmt.Sprintf("Coalesce(%s) emitted %d events", o, len(out))
+		}
+		w := want[o.name]
+		switch {
+		case w == nil || o.lt > w.lt:
+			want[o.name] = &pend{o.lt, 1}
+		case o.lt == w.lt:
+			w.n++
+			tie = true
+		}
+	}
+	return tie, "", ""
+}
+
+func c18sameScn(ctx *vc.Ctx, idx *int, name string, alpha []c18op, maxLen int) {
+	scn := ctx.Scn(name, "cases")
+	out := make(chan serf.Event, 64)
+	ops := make([]c18op, 0, 2*maxLen+1)
+	n := 0
+	c17words(len(alpha), maxLen, func(w []int) bool {
+		*idx++
+		if !ctx.Mine(*idx) {
+			return true
+		}
+		n++
+		if n&63 == 0 {
+			runtime.GC()
+		}
+		if n&1023 == 0 && time.Now().After(ctx.Deadline) {
+			scn.Exhaustive = false
+			scn.StopReason = "time budget"
+			return false
+		}
+		for mode := range c18samePayloads {
+			for mask := 0; mask < 1<<len(w); mask++ {
+				ops = ops[:0]
+				for i, d := range w {
+					ops = append(ops, alpha[d])
+					if mask&(1<<i) != 0 {
+						ops = append(ops, c18op{t: 'F'})
+					}
+				}
+				ops = append(ops, c18op{t: 'F'})
+				tie, sig, msg := c18sameDirect(ops, mode, out)
+				for len(out) > 0 {
+					<-out
+				}
+				if sig != "" {
+					s := c18opsString(ops)
+					ctx.Violation(scn.Name, sig, fmt.Sprintf("case [%s], every payload = %q: %s", s, c18samePayloads[mode], msg), c18replay{fmt.Sprintf("same/%d", mode), s})
+				}
+				scn.Case(fmt.Sprintf("mode=%d tie=%v", mode, tie), tie)
+			}
+		}
+		return true
+	})
+	scn.Sample("[x@2 x@1 x@2 x@2 F], every payload nil -> the flush emits 3 events x@2 (three equal values are three events)")
 }
 
 func c18directScn(ctx *vc.Ctx, idx *int, name string, alpha []c18op, maxLen int) {
